@@ -369,7 +369,11 @@ where F::Sample: dasp_sample::Duplex<f64> {
                         if v >= lo - tol && v <= hi + tol { st.oracle_ok(1); }
                         else { st.oracle_fail(&format!("output {}: linear output outside the interval spanned by the two frames", n_out), &case_text, &format!("[{:e}, {:e}]", lo, hi), &format!("{:e}", v)); }
                         let blend = a + (b - a) * x;
-                        let tol2 = (mag + (b - a).abs()) * 4e-15;
+                        // off the exact grid the f64 accumulator has drifted from the exact P_n by up to one
+                        // rounding per output produced so far (n_out additions of magnitude < 2^k): allow that
+                        // much error in the fraction, i.e. |b - a| * (n_out + 2) * 2^-50 in the blend
+                        let drift = if exact { 0.0 } else { (b - a).abs() * (n_out as f64 + 2.0) * 8.9e-16 * ratio.abs().max(1.0) };
+                        let tol2 = (mag + (b - a).abs()) * 4e-15 + drift;
                         if (v - blend).abs() <= tol2 { st.oracle_ok(1); }
                         else { st.oracle_fail(&format!("output {}: linear output is not the straight-line blend at the fraction of P_n", n_out), &case_text, &format!("{:e}", blend), &format!("{:e}", v)); }
                     }
